@@ -181,7 +181,7 @@ func (r *run) issue(mid, c, t, tag int, isErr bool, id xid.ID) (chan struct{}, e
 	r.mu.Lock()
 	prev := r.lastKey[key]
 	r.mu.Unlock()
-	if prev != nil {
+	if prev != nil && !r.failKey(c, t) {
 		if err := r.settle(prev, c); err != nil {
 			return nil, err
 		}
@@ -201,6 +201,23 @@ func (r *run) issue(mid, c, t, tag int, isErr bool, id xid.ID) (chan struct{}, e
 		close(returned)
 	}()
 	return returned, nil
+}
+
+// failKey: replies to a target whose send fails are never waited for. The real
+// RunCommand unregisters only AFTER SendFunc returned its error, so a reply that
+// arrives in between is taken by ProcessResponse, which then blocks for ever on
+// call.Done (the caller returns the send error without looking) — while the
+// command may still be waiting for other targets. Either way the reply is inert.
+func (r *run) failKey(c, t int) bool {
+	if c < 0 || c >= len(r.cmds) {
+		return false
+	}
+	for _, ts := range r.cmds[c].targets {
+		if ts.t == t {
+			return ts.mode == "fail"
+		}
+	}
+	return false
 }
 
 func (r *run) settle(returned chan struct{}, c int) error {
@@ -380,7 +397,15 @@ func parseInput(in *sx.Node) ([]cspec, []*sx.Node, error) {
 	return cmds, in.At(1).List, nil
 }
 
-func runImpl(input string) (string, error) {
+func runImpl(input string) (obs string, err error) {
+	if os.Getenv("C12_DEBUG") != "" {
+		t0 := time.Now()
+		defer func() {
+			if d := time.Since(t0); d > time.Second {
+				fmt.Fprintf(os.Stderr, "c12 slow case %.1fs tripped=%v err=%v input=%s\n", d.Seconds(), tripped(), err, input)
+			}
+		}()
+	}
 	in, err := sx.Parse(input)
 	if err != nil {
 		return "", err
@@ -425,10 +450,17 @@ func runImpl(input string) (string, error) {
 			}
 		}
 	}
+	normal := false
 	defer func() {
-		close(r.endCh)
+		// Stop() takes the queue mutex, which the worker holds while a commit is in
+		// progress and while it hands over a callback: never wait for it here. The
+		// callback listeners are released only when every command was awaited;
+		// after an aborted scenario they stay, so the worker can always hand over.
 		for _, q := range queues {
-			q.Stop()
+			go q.Stop()
+		}
+		if normal {
+			close(r.endCh)
 		}
 	}()
 	// one listener per callback channel: records every value that ever arrives
@@ -516,8 +548,10 @@ func runImpl(input string) (string, error) {
 			if err != nil {
 				return "", err
 			}
-			if err := r.settle(ret, c); err != nil {
-				return "", err
+			if !r.failKey(c, a.At(2).Int()) {
+				if err := r.settle(ret, c); err != nil {
+					return "", err
+				}
 			}
 		case "F":
 			n := a.At(1).Int()
@@ -558,6 +592,7 @@ func runImpl(input string) (string, error) {
 			return "", fmt.Errorf("inconclusive: command %d not completed within ceiling + its ResponseTimeout", c)
 		}
 	}
+	normal = true
 	r.mu.Lock()
 	defer r.mu.Unlock()
 	if r.fail != nil {
